@@ -34,6 +34,9 @@ CLAIMS = {
  'C18': ('model_checking',
    "TLA+ spec Ring (ESK lists with named/real recipients incl. wildcards and decoys, presented keys with lock states, message passwords, session keys, abort_early; Intended = set of outcomes the property allows; Proc = the loops of find_session_key/try_decrypt with the v4-SKESK plausibility as nondeterminism) is model-checked: Proc within Intended on all 48 384 configurations of the bound (thorough: 3 keys), with a sensitivity run (no cross-group comparison => violated, which is the defect repaired by 780bb0d); TLC emits every configuration with its allowed outcomes and the harness realises them with real keys (ECDH/X25519/X448, locked copies), hand-assembled PKESK v3/v6 and SKESK v4/v6 packets and runs decrypt_the_ring + read_to_end.",
    'DESIGN.md 5/C18', TECH),
+ 'C15': ('model_checking',
+   "TLA+ spec MsgGrammar holds the rule matrices (ESK kept per container; opt-ins for SED / GnuPG AEAD; session-key kind per container; key/signature version alignment on 7 verification paths; one-pass header vs signature; unknown/known x critical subpackets; issuer-fingerprint version; subkey version per primary version; back signature on both import paths) with non-vacuity assumptions checked by TLC, and the message grammar over packet kinds model-checked over all sequences <=4 (thorough 5). TLC emits every cell and sequence with its verdict; the harness realises each with real packets: valid ESKs of all five kinds in front of all four container kinds (GnuPG OCB container and v5 SKESK built independently), signatures with valid cryptography from a key that lies about its version, patched one-pass headers, forged signatures with subpacket ids 0..127, mixed-version certificates, bindings with missing / foreign back signatures on both representations.",
+   'DESIGN.md 5/C15', TECH),
 }
 checks = []
 for p in props:
